@@ -11,6 +11,27 @@ pub fn reaching_definitions(
     fixed_point::fixed_point_forward(rda, function)
 }
 
+/// The definitions which reach a location before it is executed.
+///
+/// `reaching_definitions` holds, for each location, the definitions which are
+/// valid once that location has been executed. The definitions which are valid
+/// when the location is about to be executed are those of its predecessors.
+pub(crate) fn reaching_definitions_in(
+    rd: &HashMap<il::ProgramLocation, LocationSet>,
+    location: &il::RefProgramLocation,
+) -> Result<LocationSet, Error> {
+    let mut defs = LocationSet::new();
+    for predecessor in location.backward()? {
+        // predecessors which are unreachable from the entry have no state
+        if let Some(state) = rd.get(&predecessor.into()) {
+            for definition in state.locations() {
+                defs.insert(definition.clone());
+            }
+        }
+    }
+    Ok(defs)
+}
+
 // We require a struct to implement methods for our analysis over.
 struct ReachingDefinitionsAnalysis<'r> {
     function: &'r il::Function,
